@@ -1,3 +1,4 @@
+import NgoVerif.Generated.Tables
 import NgoVerif.Meta.Meta2
 import NgoVerif.Meta.Compose
 import NgoVerif.Model.Unused
@@ -168,5 +169,11 @@ example : removable (analyzeUsage [r1, r2] [⟨"c", 1⟩] [⟨"d", 0⟩]) [] r2 
     Atom.terms, Term.collect, Term.isFn, fnEvent, headEvents, fullEvent]
 example : ∀ s ∈ [r1, r2], stmOk s = true := by simp [r1, r2, stmOk, headLitOk]
 end Example
+
+/-- `api.optimize` (read from the source on every run) constructs this pass with the current program and the caller's
+own declaration lists, under the parameter names the class declares, and replaces the current program by its result -/
+theorem C09_wiring :
+    Tables.API_ARGS.lookup "unused" = some (["input_", "input_predicates", "output_predicates"], "input_", "input_") ∧
+    Tables.CTOR_PARAMS.lookup "unused" = some ["prg", "input_predicates", "output_predicates"] := by decide
 
 end NgoVerif
